@@ -267,6 +267,135 @@ def oracle(case: dict, impl: dict) -> list[tuple[str, str]]:
     return out
 
 
+# ------------------------------------------------------------------ a request traced after a user call of trace.parametric()
+# A case may carry "before": {"fn", "inplace", "size", "length", "k", "builder", ...}: before the request that is judged, the
+# program calls the public `trace.parametric(function, length)` with a path function of its own, at k times the resolution,
+# on the same builder (which is then moved back onto the start) or on another builder of the same process.  The library
+# hands the function an array of curve parameters; nothing in the API says what the function may do with it, so some of
+# these functions are written the frugal numpy way and turn that array into what they need *in place*.  Whatever the
+# function did to its argument, the next request has to be traced as C10 says.
+def user_fn(b: dict, a, seen: list):
+    """the caller's path function: a curve of length ~ b["size"] leaving from the current position `a`"""
+    L, kind, inplace = b["size"], b["fn"], b["inplace"]
+
+    def f(thetas):
+        seen.append(len(thetas))
+        if kind == "ring":  # b["turns"] turns of a circle through the current position, parameter -> angle
+            r = L / (TWO_PI * b["turns"])
+            w = TWO_PI * b["turns"]
+            ang = np.multiply(thetas, w, out=thetas) if inplace else thetas * w
+            return np.column_stack((a[0] + r * (np.cos(ang) - 1), a[1] + r * np.sin(ang), a[2] + 0 * ang))
+        if kind == "eased-line":  # a straight line run with growing speed, parameter -> its square
+            u = np.square(thetas, out=thetas) if inplace else thetas * thetas
+            return np.column_stack([a[i] + u * b["d"][i] for i in range(3)])
+        if kind == "apex-parabola":  # a parabola described about its apex, which is where it ends: parameter -> theta - 1
+            u = np.subtract(thetas, 1.0, out=thetas) if inplace else thetas - 1.0
+            return np.column_stack((a[0] + b["w"] * (1 + u), a[1] + b["kk"] * (1 - u * u), a[2] + b["h"] * (1 + u)))
+        raise core.Infra(f"unknown user path function {kind}")
+
+    return f
+
+
+def _user_call(g, case: dict) -> int:
+    """the "before" call on builder `g` (standing on the start, in the request's distance mode); returns the number of curve
+    parameters the function was handed"""
+    b = case["before"]
+    seen: list = []
+    res = g.state.resolution
+    if b["k"] != 1.0:
+        g.set_resolution(res * b["k"])
+    g.trace.parametric(user_fn(b, case["start"], seen), b["length"])
+    if b["k"] != 1.0:
+        g.set_resolution(res)
+    return seen[0] if seen else 0
+
+
+def _plain_builder(case: dict):
+    from gscrib import GCodeBuilder
+
+    g = GCodeBuilder(decimal_places=case["dp"], line_endings="\n")
+    w = tc._writer()
+    g.add_writer(w)
+    g.set_length_units(case["units"])
+    g.set_resolution(case["res"])
+    g.set_direction("cw" if case["cw"] else "ccw")
+    s = case["start"]
+    g.move(x=s[0], y=s[1], z=s[2])
+    if case["rel"]:
+        g.set_distance_mode("relative")
+    return g, w
+
+
+def run_impl(case: dict) -> dict:
+    """tc.run_impl; for a request with a "before" entry: the same, after the user call.  Nothing here consults the model."""
+    b = case.get("before")
+    if not b:
+        impl = tc.run_impl(case)
+    else:
+        if case.get("switch") or case.get("warm") or case.get("warm_near") or case.get("iso"):
+            raise core.Infra("a 'before' call is combined with the plain set-up only")
+        g, w = _plain_builder(case)
+        try:
+            n_before = _user_call(g, case)
+        except core.Infra:
+            raise
+        except Exception as e:  # noqa - a valid call of the public API
+            return {"outcome": "before:" + type(e).__name__, "verts": [], "calls": [], "res_eff": float(g.state.resolution), "position": tuple(g.position)}
+        if b["builder"] == "other":
+            impl = tc.run_impl(case)  # a new builder: nothing of the first one may reach it
+        else:
+            s = case["start"]
+            g.move_absolute(x=s[0], y=s[1], z=s[2])
+            # from here on as tc.run_impl
+            n0 = len(w.lines)
+            calls = []
+            tr = g.trace
+            orig = tr.parametric
+
+            def wrapped(function, length, **kw):
+                c = {"length": float(length), "function": function}
+                calls.append(c)
+
+                def f2(thetas):
+                    pts = function(thetas)
+                    c["thetas"] = np.array(thetas, dtype=np.float64)
+                    c["points"] = np.array(pts, dtype=np.float64)
+                    return pts
+
+                return orig(f2, length, **kw)
+
+            tr.parametric = wrapped
+            outcome = "ok"
+            try:
+                tc._dispatch(tr, case)
+            except core.Infra:
+                raise
+            except Exception as e:  # noqa
+                outcome = type(e).__name__
+            finally:
+                del tr.parametric
+            blocks = tc.interpret(w.lines)
+            setup = [x for x in blocks if x[0] < n0]
+            moves = [x for x in blocks if x[0] >= n0]
+            res = float(g.state.resolution)
+            impl = {
+                "outcome": outcome,
+                "res_eff": res,
+                "res_before": res,
+                "sf": float(g.state.length_units.scale_factor),
+                "calls": calls,
+                "lines": w.lines[n0:],
+                "nlines_other": (len(w.lines) - n0) - len(moves),
+                "verts": [setup[-1][1]] + [m[1] for m in moves],
+                "words": [m[2] for m in moves],
+                "position": tuple(g.position),
+            }
+        impl["before_n"] = n_before
+    call = impl["calls"][0] if impl.get("calls") else None
+    impl["n_samples"] = len(call["thetas"]) if call and "thetas" in call else None
+    return impl
+
+
 # ------------------------------------------------------------------ batches
 def nontrivial(case, impl) -> bool:
     return impl["outcome"] == "ok" and len(impl["verts"]) >= 4
@@ -275,7 +404,7 @@ def nontrivial(case, impl) -> bool:
 def run_batch(R, cases, label, correspond=True):
     st = tc.Stage(R, PROP)
     for case in cases:
-        impl = tc.run_impl(case)
+        impl = run_impl(case)
         R.case(tc.case_repr(case), nontrivial=nontrivial(case, impl), validated=correspond)
         nm = len(impl["verts"]) - 1
         R.count(
@@ -294,6 +423,15 @@ def run_batch(R, cases, label, correspond=True):
             R.fail(tc.case_repr(case), msg, tag=tag)
         for sk in impl.get("skips", []):
             R.count("oracle-skip:" + sk)
+        if case.get("zword"):
+            R.count("z-word:" + case["zword"] + ("/relative" if case["rel"] else "/absolute"))
+        if case.get("before"):
+            b = case["before"]
+            R.count(
+                "before:" + b["fn"] + ("/in-place" if b["inplace"] else "/allocating"),
+                "before:" + b["builder"] + "-builder",
+                "before:sample-count-" + ("equal" if impl.get("before_n") == impl.get("n_samples") else "differs"),
+            )
         if correspond:
             st.add(case, impl)
     if correspond:
@@ -432,14 +570,191 @@ def gen_centre_z(rng) -> dict:
     return c
 
 
+def gen_special_z(rng) -> dict:
+    """Helical arc / arc_radius / helix / spiral / thread from a current Z that is not 0, whose Z word *as written in the call*
+    is exactly one of the values that are special for the current position: 0 (written 0.0, 0 or -0.0), the current Z,
+    minus the current Z - in both distance modes.  Absolute: down (or up) to the work surface Z0, a path that keeps its height
+    although a Z is given, a path to the mirrored height.  Relative: no vertical displacement, a displacement of the
+    current height, back to Z0."""
+    for _ in range(2000):
+        c = tc._common(rng)
+        c["switch"] = False
+        shape = rng.choice(["arc", "arc_radius", "helix", "spiral", "thread"])
+        c["shape"] = shape
+        z = rng.choice([-1, 1]) * (rng.choice([0.125, 0.25, 0.5, 1.0, 2.0, 5.0, 10.0, 25.0]) if rng.random() < 0.5 else tc._grid(rng, 1, 50))
+        s = [tc._grid(rng, -50, 50), tc._grid(rng, -50, 50), z]
+        c["start"] = s
+        kind = rng.choice(["zero", "zero", "zero", "current", "minus-current", "minus-current"])
+        zarg = {"zero": rng.choice([0.0, 0.0, 0, -0.0]), "current": z, "minus-current": -z}[kind]
+        tz = (s[2] + zarg) if c["rel"] else zarg  # waypoints in a case are absolute; s[2] + zarg is exact on the 1/8 grid
+        dz = float(tz) - s[2]
+        c["zword"] = kind
+        r = max(abs(dz), abs(z)) * 10 ** rng.uniform(-0.6, 0.9)
+        if not (0.05 <= r <= 400):
+            continue
+        turns = rng.choice([1, 1, 2, 3])
+        if shape in ("arc", "arc_radius"):
+            sweep = rng.choice([rng.uniform(0.05, TWO_PI - 0.05), rng.uniform(0.05, TWO_PI - 0.05), math.pi / 2, 3 * math.pi / 2])
+            if shape == "arc_radius" and abs(sweep - math.pi) < 0.05:
+                continue  # near a semicircle the centre is ill-conditioned
+            alpha = rng.uniform(0, TWO_PI)
+            cen = (r * math.cos(alpha), r * math.sin(alpha))
+            cx, cy = s[0] + cen[0], s[1] + cen[1]
+            rr = math.hypot(cen[0], cen[1])
+            a1 = math.atan2(s[1] - cy, s[0] - cx) + (-sweep if c["cw"] else sweep)
+            c["target"] = [cx + rr * math.cos(a1), cy + rr * math.sin(a1), tz]
+            if shape == "arc":
+                c["center"] = list(cen)
+            else:
+                c["radius"] = rr if sweep < math.pi else -rr
+            path = math.hypot(rr * sweep, dz)
+        elif shape == "thread":
+            beta = rng.uniform(0, TWO_PI)
+            c["target"] = [s[0] + 2 * r * math.cos(beta), s[1] + 2 * r * math.sin(beta), tz]
+            if dz == 0.0 or rng.random() < 0.15:
+                turns = 1
+                c["pitch"] = (abs(dz) or abs(z)) / rng.uniform(0.1, 0.9)
+            else:
+                c["pitch"] = abs(dz) / (turns + rng.uniform(0.05, 0.95))
+            path = math.hypot(r * (math.pi + TWO_PI * (turns - 1)), dz)
+        elif shape == "spiral":
+            beta = rng.uniform(0, TWO_PI)
+            c["target"] = [s[0] + r * math.cos(beta), s[1] + r * math.sin(beta), tz]
+            c["turns"] = turns
+            path = math.hypot(r * (0.5 * (math.pi + TWO_PI * (turns - 1)) + 0.6), dz)
+        else:
+            base = rng.uniform(0.05, TWO_PI - 0.05)
+            ratio_r = rng.choice([1.0, 1.0, 0.5, 0.8, 1.5, 2.0])
+            alpha = rng.uniform(0, TWO_PI)
+            cen = (r * math.cos(alpha), r * math.sin(alpha))
+            cx, cy = s[0] + cen[0], s[1] + cen[1]
+            r1 = math.hypot(cen[0], cen[1]) * ratio_r
+            a1 = math.atan2(s[1] - cy, s[0] - cx) + (-base if c["cw"] else base)
+            c["target"] = [cx + r1 * math.cos(a1), cy + r1 * math.sin(a1), tz]
+            c["center"] = list(cen)
+            c["turns"] = turns
+            path = math.hypot(0.5 * (r + r1) * (base + TWO_PI * (turns - 1)), dz, r1 - r)
+        c["res"] = path / 10 ** rng.uniform(0.7, 2.2)
+        return c
+    raise core.Infra("gen_special_z: no case")
+
+
+def request_length(case: dict) -> float:
+    """Length of the curve a request describes, worked out the way a caller would who wants to give a path of his own as many
+    segments as that one gets: closed form for circular arcs, a 500-point polygon for the others.  (Harness arithmetic only;
+    it may differ from the library's own figure in the last bits, which matters only on a boundary of int().)"""
+    s, shape = case["start"], case["shape"]
+
+    def polygon(f, n):
+        return float(np.linalg.norm(np.diff(np.asarray(f(np.linspace(0, 1, n)), dtype=float), axis=0), axis=1).sum())
+
+    def enforce(d):
+        if case["cw"]:
+            return d - TWO_PI if d >= 0 else d
+        return d + TWO_PI if d <= 0 else d
+
+    if shape == "parametric":
+        return case["fn"].get("length") or polygon(tc.param_fn(case["fn"]), 200)
+    if shape == "spline":
+        from scipy.interpolate import CubicSpline
+
+        ctrl = [list(s)]
+        for p in case["points"]:
+            if list(p) != ctrl[-1]:
+                ctrl.append(list(p))
+        th = np.linspace(0, 1, len(ctrl))
+        sp = [CubicSpline(th, [p[i] for p in ctrl]) for i in range(3)]
+        return polygon(lambda t: np.column_stack([f(t) for f in sp]), 500)
+    t = tc.spec_target(case)
+    dz = t[2] - s[2]
+    if shape == "arc_radius":
+        r, d = abs(case["radius"]), math.hypot(t[0] - s[0], t[1] - s[1])
+        r = max(r, d / 2)
+        ang = 2 * math.asin(min(1.0, d / (2 * r)))
+        return math.hypot(r * (TWO_PI - ang if case["radius"] < 0 else ang), dz)
+    c = tc.spec_centre(case)
+    r0 = math.hypot(s[0] - c[0], s[1] - c[1])
+    a_o = math.atan2(s[1] - c[1], s[0] - c[0])
+    if shape == "circle":
+        return r0 * TWO_PI
+    a_t = math.atan2(t[1] - c[1], t[0] - c[0])
+    if shape == "arc":
+        return math.hypot(r0 * enforce(a_t - a_o), dz)
+    turns = max(1, int(abs(dz) / case["pitch"])) if shape == "thread" else case["turns"]
+    total = enforce(a_t - a_o) + (-TWO_PI if case["cw"] else TWO_PI) * (turns - 1)
+    r1 = math.hypot(t[0] - c[0], t[1] - c[1])
+
+    def helix(th):
+        rad, ang = r0 + (r1 - r0) * th, a_o + total * th
+        return np.column_stack((c[0] + rad * np.cos(ang), c[1] + rad * np.sin(ang), s[2] + dz * th))
+
+    return polygon(helix, 500)
+
+
+def gen_after_user_fn(rng) -> dict:
+    """A library shape traced right after a call of the public `trace.parametric(function, length)` with a path function of
+    the caller's own (see `user_fn`), whose `length`, at the resolution it is traced with (k = 1, 1/2, 2 or 4 times the shape's,
+    the length scaled alike), gives the same int(10 * length / resolution) as the shape's own length does; half of the functions
+    work in place on the array they are handed; same builder (then moved back onto the start) or a second one.  The request
+    that is judged is the library shape."""
+    shape = rng.choice(["arc", "circle", "arc_radius", "helix", "spiral", "thread", "spline", "parametric", "arc", "circle", "helix"])
+    while True:
+        c = tc.gen_case(rng, shape, ratio=(0.7, 2.2), max_samples=3000)
+        if not c.get("invalid"):
+            break
+    c["switch"] = False
+    c.pop("warm_near", None)
+    L = request_length(c)
+    k = rng.choice([1.0, 1.0, 1.0, 0.5, 2.0, 4.0])
+    fn = rng.choice(["ring", "ring", "ring", "apex-parabola", "apex-parabola", "eased-line"])
+    b = {"fn": fn, "inplace": rng.random() < 0.5, "size": L * k, "length": L * k, "k": k, "builder": rng.choice(["same", "same", "other"])}
+    if fn == "ring":
+        b["turns"] = rng.choice([1, 1, 2])
+    elif fn == "eased-line":
+        u = [rng.uniform(-1, 1) for _ in range(3)]
+        nu = math.sqrt(sum(x * x for x in u)) or 1.0
+        b["d"] = [x / nu * L * k for x in u]
+    else:
+        b.update(w=L * k * rng.uniform(0.3, 0.7) * rng.choice([-1, 1]), kk=L * k * rng.uniform(0.2, 0.6) * rng.choice([-1, 1]), h=L * k * rng.uniform(-0.3, 0.3))
+    c["before"] = b
+    return c
+
+
+def _after(case: dict, **b) -> dict:
+    L = request_length(case) * b["k"]
+    return dict(case, before=dict(b, size=L, length=L))
+
+
+# hand-written members of the two families above
+CORPUS_SPECIAL_Z = [
+    {"shape": "thread", "cw": False, "rel": False, "start": [4.0, -2.0, -6.0], "res": 0.25, "units": "mm", "dp": 5, "target": [10.0, -2.0, 0], "pitch": 2.5, "zword": "zero"},
+    {"shape": "arc_radius", "cw": True, "rel": True, "start": [1.0, 1.0, 3.0], "res": 0.2, "units": "mm", "dp": 6, "target": [11.0, 11.0, 0.0], "radius": 10.0, "zword": "minus-current"},
+    {"shape": "spiral", "cw": False, "rel": False, "start": [-4.0, 6.0, 2.5], "res": 0.2, "units": "in", "dp": 6, "target": [6.0, 6.0, -2.5], "turns": 2, "zword": "minus-current"},
+]
+
+
+def corpus_after_user_fn() -> list:
+    return [
+        _after({"shape": "arc", "cw": True, "rel": False, "start": [10.0, 0.0, 2.0], "res": 0.25, "units": "mm", "dp": 5, "target": [0.0, 10.0, 4.0], "center": [-10.0, 0.0]},
+               fn="apex-parabola", inplace=True, k=1.0, builder="other", w=12.0, kk=-9.0, h=1.5),
+        _after({"shape": "helix", "cw": False, "rel": True, "start": [15.0, -5.0, 4.0], "res": 0.5, "units": "mm", "dp": 6, "target": [10.0, -12.5, -2.0], "center": [-5.0, 0.0], "turns": 2},
+               fn="ring", inplace=True, k=2.0, builder="same", turns=1),
+        _after({"shape": "spline", "cw": True, "rel": False, "start": [2.0, 2.0, 0.5], "res": 0.2, "units": "mm", "dp": 5, "points": [[7.0, 7.0, 0.0], [12.0, -3.0, 1.0], [17.0, 2.0, 0.0]]},
+               fn="ring", inplace=False, k=1.0, builder="same", turns=2),
+    ]
+
+
 def run(R: core.Run):
     R.rule = (
         "tracer requests drawn per shape (arc, arc_radius, circle, helix, thread, spiral, spline, polyline, user parametric) x "
         "{cw, ccw} x {absolute, relative} x starts on a 1/8 grid within +-50 (8% at the origin) x resolution 10^U(-3,1) x "
         "path/resolution 10^U(0,2.5) (6% below 1) x {mm, in} (25% after a unit switch) x decimal places {5,6,9}; ~8% geometrically "
-        "invalid requests; plus three families: bearings of start and target 10^U(-6.3,-1.5) rad apart (arc, arc_radius, helix; "
+        "invalid requests; plus five families: bearings of start and target 10^U(-6.3,-1.5) rad apart (arc, arc_radius, helix; "
         "the short way round and the long way round; radius 10^U(-0.5,3.7)), spline/polyline through whole-number points given "
-        "as Python ints from fractional starts, arc/circle/helix centre offsets with a third non-zero component; "
+        "as Python ints from fractional starts, arc/circle/helix centre offsets with a third non-zero component, "
+        "helical arc/arc_radius/helix/spiral/thread from a current Z != 0 whose Z word is exactly 0 / the current Z / minus the current Z "
+        "(both modes), a library shape traced after a user call of trace.parametric() with the same int(10*length/resolution) whose path "
+        "function works in place on its argument (50%), on the same builder or on a second one; "
         "non-trivial = accepted request that emitted >= 3 moves; distinct by hash of the request"
     )
     R.assumptions = [
@@ -475,6 +790,11 @@ def run(R: core.Run):
     run_batch(R, fam, "family:int-points")
     fam = [gen_centre_z(R.rng) for _ in range(R.n(36, 700))]
     run_batch(R, fam, "family:centre-z")
+    fam = [dict(c) for c in CORPUS_SPECIAL_Z] + [gen_special_z(R.rng) for _ in range(R.n(60, 1200))]
+    run_batch(R, fam, "family:special-z")
+    # last, so that nothing a user function left behind can reach the requests above
+    fam = corpus_after_user_fn() + [gen_after_user_fn(R.rng) for _ in range(R.n(60, 1200))]
+    run_batch(R, fam, "family:after-user-fn")
     if R.broken:
         # failing-input search: a fresh batch judged by the oracle only, biased to the shapes that disagreed
         R.search_batches += 1
@@ -491,7 +811,7 @@ def replay(data):
     if not isinstance(case, dict) or "shape" not in case:
         print("replay: no case recorded (", data.get("no_longer_checks"), ")")
         return 1
-    impl = tc.run_impl(case)
+    impl = run_impl(case)
     msgs = oracle(case, impl)
     R = core.Run(PROP, "quick", 0)
     st = tc.Stage(R, PROP)
